@@ -12,8 +12,31 @@ logging.disable(logging.CRITICAL)
 if sys.getrecursionlimit() < 20000:
     sys.setrecursionlimit(20000)
 
-import tealer  # noqa: E402
+# printers / detector output write below TEALER_ROOT_OUTPUT_DIR (read once, at import of tealer.utils.output)
+import atexit  # noqa: E402
+import shutil  # noqa: E402
+import tempfile  # noqa: E402
+
+_MAIN_PID = os.getpid()
+OUT_ROOT = tempfile.mkdtemp(prefix="vf_out_")
+os.environ["TEALER_ROOT_OUTPUT_DIR"] = OUT_ROOT
+
+
+def _cleanup():
+    if os.getpid() == _MAIN_PID:
+        shutil.rmtree(OUT_ROOT, ignore_errors=True)
+
+
+atexit.register(_cleanup)
+
+
+def out_dir(name: str) -> str:
+    """directory tealer will use for contract `name`"""
+    return os.path.join(OUT_ROOT, name)
+
+import tealer  # noqa: E402,F401
 
 _p = os.path.realpath(os.path.dirname(os.path.dirname(tealer.__file__)))
 if _p != os.path.realpath(REPO):
     raise RuntimeError(f"tealer imported from {_p}, expected {REPO}")
+
